@@ -1,7 +1,7 @@
 ---------------------------- MODULE HandoverCapA ----------------------------
 (* Level A for the hand-over with a FULL start-up buffer (C12: "the most recent 1000, in order ... no message logged by    *)
 (* any thread is lost across the hand-over ... every delivered message carries all global fields set before its           *)
-(* delivery").  Input per history: pre = the ids logged (sequentially) before anything else, late = the ids logged by     *)
+(* delivery").  Input per history: pre_lo..pre_hi = the ids logged (sequentially) before anything else, late = the ids logged by     *)
 (* threads racing the first add_destinations(), offered[d] = what destination d was offered, in order, each entry         *)
 (* <<id, has the global field, the field had been set when it was delivered, ... when its send() was invoked>>.          *)
 (*   duplicate          an id offered twice to one destination                                                            *)
@@ -17,27 +17,31 @@ VARIABLES tid, done
 T == Traces[tid]
 ToSet(s) == {s[i] : i \in DOMAIN s}
 IdsOf(o) == [i \in DOMAIN o |-> o[i][1]]
-PreSet == ToSet(T.pre)
-OfPre(o) == SelectSeq(IdsOf(o), LAMBDA x : x \in PreSet)
+\* the buffered messages have the consecutive ids lo..hi (hi < lo: none), logged in that order
+IsPre(x) == x >= T.pre_lo /\ x <= T.pre_hi
+NPre == IF T.pre_hi < T.pre_lo THEN 0 ELSE T.pre_hi - T.pre_lo + 1
 Max(a, b) == IF a > b THEN a ELSE b
 ClauseOf(o) ==
   LET ids == IdsOf(o)
-      p == OfPre(o)
-      np == Len(T.pre)
-      dropped == np - Len(p)
+      p == SelectSeq(ids, IsPre)
+      dropped == NPre - Len(p)
   IN IF Cardinality(ToSet(ids)) # Len(ids) THEN "duplicate"
      ELSE IF ~(ToSet(T.late) \subseteq ToSet(ids)) THEN "late_lost"
-     ELSE IF dropped < 0 \/ p # SubSeq(T.pre, dropped + 1, np) THEN "buffered_not_recent"
-     ELSE IF dropped > Max(0, np + Len(T.late) - Cap) THEN "buffered_not_recent"
+     \* what is offered of the buffer is its most recent part, in order ...
+     ELSE IF dropped < 0 \/ \E i \in DOMAIN p : p[i] # T.pre_lo + dropped + i - 1 THEN "buffered_not_recent"
+     \* ... and no more was dropped than the racing messages can have pushed out
+     ELSE IF dropped > Max(0, NPre + Len(T.late) - Cap) THEN "buffered_not_recent"
      \* every buffered message had been logged before the racing threads started: it comes first
-     ELSE IF \E i, j \in DOMAIN ids : i < j /\ ids[i] \notin PreSet /\ ids[j] \in PreSet THEN "later_message_first"
+     \* (ids are of two kinds, so any inversion shows between two neighbours)
+     ELSE IF \E i \in DOMAIN ids : i < Len(ids) /\ ~IsPre(ids[i]) /\ IsPre(ids[i + 1]) THEN "later_message_first"
      \* o[i][4] = 1: the message's send() was invoked after the field had been set
      ELSE IF \E i \in DOMAIN o : o[i][4] = 1 /\ o[i][2] = 0 THEN "global_field_missing"
      \* delivered after the field was set, but its send() was already in flight (fields merged) when it was set: finding F16
      ELSE IF \E i \in DOMAIN o : o[i][3] = 1 /\ o[i][2] = 0 THEN "global_field_missing_send_in_flight"
      ELSE ""
-Clause == LET bad == {i \in DOMAIN T.offered : ClauseOf(T.offered[i]) # ""} IN
-          IF bad = {} THEN "" ELSE ClauseOf(T.offered[CHOOSE i \in bad : TRUE])
+Clause == LET cs == [i \in DOMAIN T.offered |-> ClauseOf(T.offered[i])]
+              bad == {i \in DOMAIN cs : cs[i] # ""}
+          IN IF bad = {} THEN "" ELSE cs[CHOOSE i \in bad : TRUE]
 Init == tid \in DOMAIN Traces /\ done = FALSE
 Next == ~done /\ PrintT(<<"ACC", tid, Clause>>) /\ done' = TRUE /\ UNCHANGED tid
 Spec == Init /\ [][Next]_<<tid, done>>
